@@ -33,13 +33,12 @@ VARIABLES
   running,  \* requests a worker is executing
   inflight, \* flushInFlight
   pc,       \* [Req -> {"idle","checked","sent","done","dropped"}]
-  dirty,    \* the database has data to flush
-  flushes   \* completed flush jobs
+  dirty     \* the database has data to flush
 
-vars == <<mark, queue, running, inflight, pc, dirty, flushes>>
+vars == <<mark, queue, running, inflight, pc, dirty>>
 
 Init == /\ mark = FALSE /\ queue = 0 /\ running = 0 /\ inflight = 0
-        /\ pc = [r \in Req |-> "idle"] /\ dirty = FALSE /\ flushes = 0
+        /\ pc = [r \in Req |-> "idle"] /\ dirty = FALSE
 
 Check(r) ==
   /\ pc[r] = "idle"
@@ -47,32 +46,32 @@ Check(r) ==
      ELSE IF MarkBeforeSend
        THEN mark' = TRUE /\ inflight' = inflight + 1 /\ pc' = [pc EXCEPT ![r] = "checked"]
        ELSE pc' = [pc EXCEPT ![r] = "checked"] /\ UNCHANGED <<mark, inflight>>
-  /\ UNCHANGED <<queue, running, dirty, flushes>>
+  /\ UNCHANGED <<queue, running, dirty>>
 Send(r) ==
   /\ pc[r] = "checked"
   /\ queue' = queue + 1
   /\ pc' = [pc EXCEPT ![r] = IF MarkBeforeSend THEN "done" ELSE "sent"]
-  /\ UNCHANGED <<mark, running, inflight, dirty, flushes>>
+  /\ UNCHANGED <<mark, running, inflight, dirty>>
 Mark(r) ==
   /\ pc[r] = "sent"
   /\ mark' = TRUE /\ inflight' = inflight + 1
   /\ pc' = [pc EXCEPT ![r] = "done"]
-  /\ UNCHANGED <<queue, running, dirty, flushes>>
+  /\ UNCHANGED <<queue, running, dirty>>
 Take ==
   /\ queue > 0
   /\ queue' = queue - 1 /\ running' = running + 1
-  /\ UNCHANGED <<mark, inflight, pc, dirty, flushes>>
+  /\ UNCHANGED <<mark, inflight, pc, dirty>>
 Finish ==
   /\ running > 0
   /\ running' = running - 1 /\ inflight' = inflight - 1 /\ mark' = FALSE
-  /\ dirty' = FALSE /\ flushes' = flushes + 1
+  /\ dirty' = FALSE
   /\ UNCHANGED <<queue, pc>>
 \* the requester comes back with another request
 Again(r) ==
   /\ pc[r] \in {"done", "dropped"}
   /\ pc' = [pc EXCEPT ![r] = "idle"]
-  /\ UNCHANGED <<mark, queue, running, inflight, dirty, flushes>>
-Write == dirty' = TRUE /\ UNCHANGED <<mark, queue, running, inflight, pc, flushes>>
+  /\ UNCHANGED <<mark, queue, running, inflight, dirty>>
+Write == dirty' = TRUE /\ UNCHANGED <<mark, queue, running, inflight, pc>>
 
 Next == \/ \E r \in Req : Check(r) \/ Send(r) \/ Mark(r) \/ Again(r)
         \/ Take \/ Finish \/ Write
@@ -83,4 +82,11 @@ Quiet == queue = 0 /\ running = 0 /\ \A r \in Req : pc[r] \notin {"checked", "se
 NoStaleMark == Quiet => ~mark
 \* the counter of jobs in flight is what it says
 InFlightExact == Quiet => inflight = 0
+
+\* with fair requesters and workers, data does not wait for ever: requests keep coming (the periodic check), a request that is
+\* not dropped is sent, marked, taken and finished
+FairSpec ==
+  /\ Spec /\ WF_vars(Take) /\ WF_vars(Finish)
+  /\ \A r \in Req : WF_vars(Check(r)) /\ WF_vars(Send(r)) /\ WF_vars(Mark(r)) /\ WF_vars(Again(r))
+FlushedEventually == dirty ~> ~dirty
 =============================================================================
